@@ -959,13 +959,17 @@ class Engine:
         return res
 
     def exec_stmt(self, node, st: State):
+        # the state before the statement: a path split re-executes the statement from HERE, not from the state the abandoned
+        # first attempt left behind (ghost counters bumped, lists appended to by call models evaluated before the split point
+        # would otherwise be applied twice)
+        st0 = st.fork()
         try:
             return self._exec_stmt(node, st)
         except Fork as f:
             outs = []
             for alt in f.alts:
                 label, cond, kind, payload = alt[:4]
-                s2 = st.fork()
+                s2 = st0.fork()
                 if len(alt) > 4 and alt[4] is not None:
                     alt[4](s2)
                 if cond is not None:
@@ -1602,8 +1606,13 @@ class Engine:
 
     def ev_IfExp(self, node, st):
         if id(node) in st.decided:
-            # the statement is being re-executed for one alternative of the split below: only that branch is evaluated
-            return self.ev(node.body if st.take_decided(node)[1] else node.orelse, st)
+            # the statement is being re-executed for one alternative of the split below: the test is evaluated again (the
+            # re-execution starts from the state before the statement, so what evaluating the test does to the state has to
+            # happen again) and only the chosen branch is evaluated
+            taken = st.take_decided(node)[1]
+            c = self.truthy(self.ev(node.test, st))
+            st.assume(c if taken else z3.Not(c))
+            return self.ev(node.body if taken else node.orelse, st)
         c = self.truthy(self.ev(node.test, st))
         cs = z3.simplify(c)
         if z3.is_true(cs):
